@@ -60,6 +60,10 @@ def cases(rng, budget, widx, nworkers, tier):
                     a, b = (a, b2) if rng.random() < 0.7 else (b2, a)      # strictly nested, off-centre, no surface contact
         elif ka in ("PG", "PH") and kb in ("PG", "PH") and rng.random() < 0.25:
             (a, b), _lab = gen.body_pair(rng, ka, kb, small=True)      # labelled relative positions incl. strictly nested / small integer boxes
+        if ka == "PL" and kb == "PL" and rng.random() < 0.15:
+            pp = gen.slab_plane_pair(rng)          # parallel planes at Hesse offsets -1 and -2 (hash-alike)
+            if pp is not None:
+                a, b = pp
         if (ka in gen.FLAT) != (kb in gen.FLAT) and rng.random() < 0.06:
             # hits / section ends at a coordinate -1 against -2 (the values CPython hashes alike)
             f_, body_ = (ka, kb) if ka in gen.FLAT else (kb, ka)
